@@ -1,0 +1,27 @@
+// Copyright 2020-2025 Buf Technologies, Inc.
+//
+// Licensed under the Apache License, Version 2.0 (the "License");
+// you may not use this file except in compliance with the License.
+// You may obtain a copy of the License at
+//
+//      http://www.apache.org/licenses/LICENSE-2.0
+//
+// Unless required by applicable law or agreed to in writing, software
+// distributed under the License is distributed on an "AS IS" BASIS,
+// WITHOUT WARRANTIES OR CONDITIONS OF ANY KIND, either express or implied.
+// See the License for the specific language governing permissions and
+// limitations under the License.
+
+//go:build verif
+
+package format
+
+// Contracts for the gocv verifier (see /verif/DESIGN.md). Comment-only.
+//
+// C20: format --exit-code exits with ErrFileAnnotation (status 100) exactly when a difference was
+// found and nothing else failed. Closure 0 is the deferred status decision.
+//@ func run(ctx, container, flags) (retErr)
+//@   property C20
+//@   modifies heap, ghost.annotPrinted, ghost.fail, ghost.sinkPaths, ghost.lastPutOptions, ghost.buf, ghost.hdrVals
+//@   closure 0 ensures diff-gives-100: old(retErr) == nil && flags.ExitCode && diffExists ==> retErr == bufctl.ErrFileAnnotation
+//@   closure 0 ensures no-diff-keeps: !(old(retErr) == nil && flags.ExitCode && diffExists) ==> retErr == old(retErr)
